@@ -18,7 +18,7 @@ EXPAND = {"e": ["-e"], "d": ["-d"], "v": ["-v"], "V": ["-V"], "h": ["-h"], "le":
           "c2": ["--cmode", "2"], "c5": ["--cmode", "5"], "c100": ["--cmode", "100"], "c256": ["--cmode", "256"], "c260": ["--cmode", "260"], "cabc": ["--cmode", "abc"],
           "h1": ["--hmode", "1"], "h3": ["--hmode", "3"], "h256": ["--hmode", "256"], "x": ["-x"], "stray": ["stray"]}
 # what counts as a diagnostic: any of the usual words, case-insensitively (the wording is the maintainer's business)
-DIAG = re.compile(rb"error|wrong|invalid|too short|too long|not match|not found|not complete|requires an argument|unrecognized|unknown|fail|cannot|could not|can't|missing|no such|usage|only one|must ", re.I)
+DIAG = re.compile(rb"error|wrong|invalid|too short|too long|not match|not found|not complete|requires an argument|unrecognized|unknown|fail|cannot|could not|can't|missing|no such|usage|only one|must |mismatch|corrupt|bad |denied|illegal|unsupported|not valid|not a valid|reject|expected|require|incomplete|truncat|empty|abort|unable", re.I)
 PLAIN = bytes((i * 37 + 11) % 256 for i in range(100))
 
 
